@@ -165,6 +165,33 @@ def matrix(props, only, tier_args, seeds, own_only=False, out_name="MATRIX.json"
     return 0
 
 
+def benign(props, only, tier_args):
+    """Property-preserving changes (the repair of KF1, locks around the caches, a re-implemented
+    capacity cache with new messages, a new preset and default, a frozenset alphabet): every
+    check must stay silent (exit 0, no VIOLATION line, no harness error)."""
+    bad = 0
+    for patch in sorted(glob.glob(os.path.join(env.VERIF, "benign", "*.diff"))):
+        name = os.path.basename(patch)[:-5]
+        if only and only not in name:
+            continue
+        for prop in props:
+            d = scratch_repo(patch, 1)
+            rdir = tempfile.mkdtemp(prefix="selfies-replays-")
+            try:
+                code, out = run_check(prop, {"VERIF_REPO": d, "VERIF_REPLAY_DIR": rdir}, tier_args + ["--no-evidence"])
+            finally:
+                shutil.rmtree(d, ignore_errors=True)
+                shutil.rmtree(rdir, ignore_errors=True)
+            known = "KNOWN-FINDING" in out
+            ok = code == 0 and "VIOLATION" not in out
+            print("benign %-36s %s exit=%d%s %s" % (name, prop, code, " (known finding printed)" if known else "",
+                                                    "OK" if ok else "FALSE-ALARM"), flush=True)
+            if not ok:
+                bad += 1
+                print("    " + "\n    ".join(out.strip().splitlines()[-6:]))
+    return bad
+
+
 def unchanged(props, tier_args):
     bad = 0
     for prop in props:
@@ -177,7 +204,7 @@ def unchanged(props, tier_args):
 
 def main():
     ap = argparse.ArgumentParser()
-    ap.add_argument("what", nargs="?", default="all", choices=("determinism", "mutants", "seeded", "unchanged", "all", "patch", "matrix"))
+    ap.add_argument("what", nargs="?", default="all", choices=("determinism", "mutants", "seeded", "unchanged", "all", "patch", "matrix", "benign"))
     ap.add_argument("--matrix-seeds", default="0,1,2")
     ap.add_argument("--own", action="store_true", help="matrix: only the check of the property the change was written against (else: only the others)")
     ap.add_argument("--patch", default=None)
@@ -197,6 +224,8 @@ def main():
         for prop in props:
             if not one_mutant(os.path.basename(a.patch), prop, a.patch, 1, tier_args):
                 bad += 1
+    if a.what in ("benign", "all"):
+        bad += benign(props, a.only, tier_args)
     if a.what in ("determinism", "all"):
         bad += determinism(props, list(range(1000, 1000 + a.seeds)), a.runs)
     if a.what in ("unchanged", "all"):
